@@ -311,12 +311,20 @@ func (n *e2eNode) start(t fataler, ctx context.Context) {
 
 // restartProcess stops the manager and graphsync and starts new ones on the same stores.
 func (n *e2eNode) restartProcess(t fataler, ctx context.Context) {
+	n.restartProcessWith(t, ctx, nil)
+}
+
+// restartProcessWith calls between (if not nil) when the old process is gone and the new one does not exist yet.
+func (n *e2eNode) restartProcessWith(t fataler, ctx context.Context, between func()) {
 	n.lifeMu.Lock()
 	defer n.lifeMu.Unlock()
 	if n.closing {
 		return
 	}
 	n.stopLocked()
+	if between != nil {
+		between()
+	}
 	n.start(t, ctx)
 	n.stopped = false
 }
